@@ -223,6 +223,12 @@ FIXED = [
     {'k': 'fence', 'stmts': ['Y = X', '```\nfoo = 1']},
     {'k': 's', 's': 'Y[=1]'},
     {'k': 's', 's': 'b = {as} * X'},
+    # histories inside one process: a text that is the left-hand side of one statement and the right-hand side of another (compact layout),
+    # character-identical verbatim statements repeated
+    {'k': 'meta', 'stmts': ['Y=C+G', 'GDP=Y'], 'var': 'Y = C + G\nGDP = Y', 'strict': False, 'feats': ['ws'], 'flags': [], 'perm': None, 'skipfix': []},
+    {'k': 'meta', 'stmts': ['GDP=Y', 'Y=C+G', 'C=GDP'], 'var': 'GDP = Y\nY = C + G\nC = GDP', 'strict': False, 'feats': ['ws'], 'flags': [], 'perm': None, 'skipfix': []},
+    {'k': 's', 's': '`k = 1`\nY = X\n`k = 1`'},
+    {'k': 's', 's': '```\nN = N + 1\n```\nY = X[-1]\n```\nN = N + 1\n```\n`k = 1`\n`k = 1`'},
     {'k': 's', 's': 'Y = <if> + X[-1]\nZ = { None }'},
     {'k': 'meta', 'stmts': ['Y = X[%s]' % ('0' * 4299 + '1')], 'var': 'Y = X[ +%s ]' % ('0' * 4299 + '1'), 'strict': True, 'feats': ['inner', 'sign'], 'flags': [], 'perm': None, 'skipfix': []},
     {'k': 'meta', 'stmts': ['Y = X[%s]' % ('0' * 4300 + '1')], 'var': 'Y = X[ +%s ]' % ('0' * 4300 + '1'), 'strict': True, 'feats': ['inner', 'sign'], 'flags': [], 'perm': None, 'skipfix': []},
